@@ -1,0 +1,284 @@
+//! Verification hooks (feature `verif`): drive one real `VirtualSocket` by hand.
+//!
+//! A child module of `stream_dispatch` so that it can build and poll the private
+//! `VirtualSocket` through the real `UtpStreamStarter::new`, inject messages into its
+//! inbound channel and read (never write) its state. Nothing here is used by the library.
+
+use std::{
+    net::SocketAddr,
+    sync::Arc,
+    task::{Context, Poll},
+    time::{Duration, Instant},
+};
+
+use tokio::sync::mpsc::{UnboundedSender, unbounded_channel};
+
+use super::{StreamArgs, UtpStreamStarter, VirtualSocket, VirtualSocketState};
+use crate::{
+    SocketOpts, UtpSocket, UtpStream,
+    message::UtpMessage,
+    raw::UtpHeader,
+    socket::Dispatcher,
+    traits::{Transport, UtpEnvironment},
+};
+
+pub enum EndpointKind<'a> {
+    /// We connected; `remote_ack` is the peer's SYN-ACK.
+    Outgoing {
+        remote_ack: &'a UtpHeader,
+        rtt: Duration,
+    },
+    /// We accepted; `remote_syn` is the peer's SYN, `next_seq_nr` our initial sequence number.
+    Incoming {
+        next_seq_nr: u16,
+        remote_syn: &'a UtpHeader,
+    },
+}
+
+/// Read-only snapshot of the quantities that have no exact black-box equivalent.
+#[derive(Debug, Clone, PartialEq, Eq)]
+pub struct Observation {
+    pub state: &'static str,
+    /// retransmit, inactivity, ack-delay, recovery-pipe, syn-ack-resend; remaining time (0 if due).
+    pub timers: [Option<Duration>; 5],
+    pub last_remote_window: u32,
+    pub flight_size: usize,
+    pub rx_queue_bytes: usize,
+    pub rx_ooq_bytes: usize,
+    pub rx_ooq_packets: usize,
+    pub rx_ooq_slots: usize,
+    pub mss: u16,
+    pub max_ss: u16,
+    pub rto: Duration,
+    pub rtt: Duration,
+    pub rto_retransmissions: usize,
+    pub tx_ring_len: usize,
+    pub tx_ring_cap: usize,
+    pub tx_segments: usize,
+    pub tx_segmented_bytes: usize,
+    pub cwnd: usize,
+    pub ssthresh: usize,
+    pub recovery_phase: u8,
+    pub seq_nr: u16,
+    pub last_sent_seq_nr: u16,
+    pub last_consumed_remote_seq_nr: u16,
+    pub inbound_queued: usize,
+}
+
+pub struct Endpoint<T: Transport, E: UtpEnvironment> {
+    vsock: Option<VirtualSocket<T, E>>,
+    tx: UnboundedSender<UtpMessage>,
+    socket: Arc<UtpSocket<T, E>>,
+    // Kept alive so that the socket's channels stay open, as they are while a socket lives.
+    _dispatcher: Dispatcher<T, E>,
+}
+
+impl<T: Transport, E: UtpEnvironment> Endpoint<T, E> {
+    /// Builds socket + connection exactly as the library does, but spawns nothing.
+    pub fn new(
+        transport: T,
+        env: E,
+        opts: SocketOpts,
+        remote: SocketAddr,
+        kind: EndpointKind<'_>,
+    ) -> crate::Result<(Self, UtpStream)> {
+        let now = env.now();
+        let (socket, dispatcher) = UtpSocket::new_with_opts_and_dispatcher(transport, env, opts)?;
+        let args = match kind {
+            EndpointKind::Outgoing { remote_ack, rtt } => {
+                StreamArgs::new_outgoing(remote_ack, now.checked_sub(rtt).unwrap_or(now), now)
+            }
+            EndpointKind::Incoming {
+                next_seq_nr,
+                remote_syn,
+            } => StreamArgs::new_incoming(next_seq_nr.into(), remote_syn),
+        };
+        let (tx, rx) = unbounded_channel();
+        let UtpStreamStarter { stream, vsock, .. } =
+            UtpStreamStarter::new(&socket, remote, rx, args);
+        Ok((
+            Endpoint {
+                vsock: Some(vsock),
+                tx,
+                socket,
+                _dispatcher: dispatcher,
+            },
+            stream,
+        ))
+    }
+
+    /// Queue a message as the socket dispatcher would. False if the connection is gone.
+    pub fn inject(&self, msg: UtpMessage) -> bool {
+        self.tx.send(msg).is_ok()
+    }
+
+    pub fn is_done(&self) -> bool {
+        self.vsock.is_none()
+    }
+
+    /// One poll of the connection future. When it completes the future is dropped, as the
+    /// task wrapper does.
+    pub fn poll_once(&mut self, cx: &mut Context<'_>) -> Option<Poll<crate::Result<()>>> {
+        let v = self.vsock.as_mut()?;
+        let r = v.poll(cx);
+        if r.is_ready() {
+            self.vsock = None;
+        }
+        Some(r)
+    }
+
+    pub fn socket(&self) -> &Arc<UtpSocket<T, E>> {
+        &self.socket
+    }
+
+    pub fn observe(&self, now: Instant) -> Option<Observation> {
+        let v = self.vsock.as_ref()?;
+        fn rem(now: Instant, t: Option<Instant>) -> Option<Duration> {
+            t.map(|t| t.saturating_duration_since(now))
+        }
+        let (ooq_packets, ooq_bytes, _ff, ooq_slots) = v.user_rx.verif_ooq_stats();
+        let (ring_len, ring_cap) = v.user_tx.verif_ring();
+        Some(Observation {
+            state: v.state.name(),
+            timers: [
+                rem(now, v.timers.retransmit.poll_at()),
+                rem(now, v.timers.remote_inactivity_timer.poll_at()),
+                rem(now, v.timers.ack_delay_timer.poll_at()),
+                rem(now, v.timers.recovery_pipe_expiry.poll_at()),
+                rem(now, v.timers.syn_ack_resend.poll_at()),
+            ],
+            last_remote_window: v.last_remote_window,
+            flight_size: v.user_tx_segments.calc_flight_size(v.last_sent_seq_nr),
+            rx_queue_bytes: v.user_rx.verif_queue_bytes(),
+            rx_ooq_bytes: ooq_bytes,
+            rx_ooq_packets: ooq_packets,
+            rx_ooq_slots: ooq_slots,
+            mss: v.segment_sizes.mss(),
+            max_ss: v.segment_sizes.max_ss(),
+            rto: v.rtte.retransmission_timeout(),
+            rtt: v.rtte.roundtrip_time(),
+            rto_retransmissions: v.rto_retransmissions,
+            tx_ring_len: ring_len,
+            tx_ring_cap: ring_cap,
+            tx_segments: v.user_tx_segments.total_len_packets(),
+            tx_segmented_bytes: v.user_tx_segments.total_len_bytes(),
+            cwnd: v.congestion_controller.window(),
+            ssthresh: v.congestion_controller.sshthresh(),
+            recovery_phase: v.recovery.verif_phase(),
+            seq_nr: v.seq_nr.0,
+            last_sent_seq_nr: v.last_sent_seq_nr.0,
+            last_consumed_remote_seq_nr: v.last_consumed_remote_seq_nr.0,
+            inbound_queued: v.rx.len(),
+        })
+    }
+
+    /// Canonical dump of every field of the connection that can influence a future step.
+    /// Absolute time is dropped (instants become offsets from `now`).
+    pub fn fingerprint(&self, now: Instant, out: &mut Vec<u64>) {
+        let v = match self.vsock.as_ref() {
+            Some(v) => v,
+            None => {
+                out.push(0xdead);
+                return;
+            }
+        };
+        let VirtualSocket {
+            state,
+            socket: _,         // configuration, constant per driver
+            socket_created: _, // only feeds header timestamps
+            socket_opts: _,    // configuration, constant per driver
+            remote: _,         // constant per driver
+            conn_id_send,
+            timers,
+            last_remote_timestamp: _, // only echoed into header timestamps
+            last_remote_window,
+            seq_nr,
+            rto_retransmissions,
+            last_sent_seq_nr,
+            last_consumed_remote_seq_nr,
+            last_sent_ack_nr,
+            last_sent_window,
+            consumed_but_unacked_bytes,
+            rx,
+            user_rx,
+            user_tx,
+            user_tx_segments,
+            segment_sizes,
+            rtte,
+            congestion_controller,
+            recovery,
+            this_poll,
+            env: _,
+            drop_guard: _,
+            parent_span: _,
+            #[cfg(feature = "per-connection-metrics")]
+                metrics: _,
+        } = v;
+        match *state {
+            VirtualSocketState::SynReceived => out.push(1),
+            VirtualSocketState::SynAckSent { count } => out.push(2 | (count as u64) << 8),
+            VirtualSocketState::Established => out.push(3),
+            VirtualSocketState::FinWait1 { our_fin } => out.push(4 | (our_fin.0 as u64) << 8),
+            VirtualSocketState::FinWait2 => out.push(5),
+            VirtualSocketState::LastAck {
+                our_fin,
+                remote_fin,
+            } => out.push(6 | (our_fin.0 as u64) << 8 | (remote_fin.0 as u64) << 24),
+            VirtualSocketState::Closed => out.push(7),
+        }
+        out.push(conn_id_send.0 as u64);
+        {
+            let super::Timers {
+                sleep,
+                remote_inactivity_timer,
+                recovery_pipe_expiry,
+                retransmit,
+                ack_delay_timer,
+                syn_ack_resend,
+            } = timers;
+            let t = |o: Option<Instant>| match o {
+                None => u64::MAX / 7,
+                Some(t) => crate::verif::rel_instant(now, t),
+            };
+            out.push(t(remote_inactivity_timer.poll_at()));
+            out.push(t(recovery_pipe_expiry.poll_at()));
+            out.push(t(retransmit.poll_at()));
+            out.push(t(ack_delay_timer.poll_at()));
+            out.push(t(syn_ack_resend.poll_at()));
+            // The tokio sleep matters only while it is registered and in the future.
+            let dl = sleep.deadline().into_std();
+            if dl > now && !sleep.is_elapsed() {
+                out.push(crate::verif::rel_instant(now, dl));
+            } else {
+                out.push(u64::MAX / 11);
+            }
+        }
+        out.push(*last_remote_window as u64);
+        out.push(seq_nr.0 as u64);
+        out.push(*rto_retransmissions as u64);
+        out.push(last_sent_seq_nr.0 as u64);
+        out.push(last_consumed_remote_seq_nr.0 as u64);
+        out.push(last_sent_ack_nr.0 as u64);
+        out.push(*last_sent_window as u64);
+        out.push(*consumed_but_unacked_bytes as u64);
+        out.push(rx.len() as u64);
+        user_rx.verif_fp(out);
+        user_tx.verif_fp(out);
+        user_tx_segments.verif_fp(now, out);
+        out.extend_from_slice(&segment_sizes.verif_state());
+        out.extend_from_slice(&rtte.verif_state());
+        congestion_controller.verif_fp(now, out);
+        recovery.verif_fp(now, out);
+        {
+            let super::ThisPoll {
+                now: _,     // overwritten at the start of every poll
+                tmp_buf: _, // scratch, fully rewritten before each use
+                transport_pending,
+                restart,
+                unsegmented_data,
+            } = this_poll;
+            out.push((*transport_pending as u64) | (*restart as u64) << 1);
+            out.push(*unsegmented_data as u64);
+        }
+    }
+}
